@@ -1,8 +1,904 @@
-//! (stub) family `ffi` - see CONTRIBUTING.md
+//! C26 driver: calls the real `extern "C"` functions of searchlite-ffi (linked as rlib).
+//!
+//! For seeded random (query, limit, cursor, aggs) argument tuples over a small index the driver
+//! first obtains the full response with a large buffer and then repeats the call with EVERY
+//! capacity 0..=len+16 into a buffer that is embedded
+//!   * `canary`      between two 64-byte canary regions of a heap allocation,
+//!   * `guard_end`   so that buf+cap is the first byte of a PROT_NONE page (canaries in front),
+//!   * `guard_start` so that buf-1 is the last byte of a PROT_NONE page (canaries behind);
+//!     in the guard modes the aggs bytes also end exactly at a PROT_NONE page (no NUL).
+//! Every sweep runs in a forked child that reports one line per call through a pipe, so that a
+//! fault or abort of the callee is an *observation* (`crashed`, `signal`) and never fatal to the
+//! driver. Null pointers in each argument position run the same way, one child per call.
+//!
+//! The oracle is spec/Trace_Ffi.tla (postconditions of FfiContract.tla / FfiBuf.tla); this file
+//! only drives, measures memory, and records.
+
+use std::collections::BTreeMap;
+use std::ffi::CString;
+use std::os::raw::c_char;
+use std::panic::{catch_unwind, AssertUnwindSafe};
+use std::path::Path;
+
 use anyhow::{bail, Result};
+use rand::rngs::StdRng;
+use rand::Rng;
+use serde_json::{json, Value};
 
-use crate::util::Args;
+use searchlite_core::api::builder::IndexBuilder;
+use searchlite_core::api::types::{
+  Aggregation, ExecutionStrategy, IndexOptions, Query, QueryNode, SearchRequest, StorageType,
+};
+use searchlite_core::api::Index;
+use searchlite_ffi::{
+  searchlite_add_json, searchlite_commit, searchlite_index_close, searchlite_index_open,
+  searchlite_search, IndexHandle,
+};
 
-pub fn main(_args: &Args) -> Result<()> {
-  bail!("family ffi is not implemented yet")
+use crate::util::*;
+
+const FILL: u8 = 0xAA;
+const CANARY: u8 = 0xCC;
+const CANARY_LEN: usize = 64;
+const BIG: usize = 1 << 20;
+
+// ------------------------------------------------------------------------------------------------
+// Arguments of one call (what a C caller would pass)
+// ------------------------------------------------------------------------------------------------
+
+#[derive(Clone, Debug)]
+pub struct CallArgs {
+  pub query: Vec<u8>,          // without NUL; may be invalid UTF-8
+  pub limit: usize,
+  pub cursor: Option<Vec<u8>>, // None = NULL
+  pub aggs: Option<Vec<u8>>,   // None = NULL
+  pub aggs_len: usize,         // may be shorter than aggs (prefix) or 0
+  pub cursor_kind: &'static str,
+  pub aggs_kind: &'static str,
+}
+
+/// The options every front end other than the library fixes (see spec/Frontends.tla, FeOptions).
+pub fn frontend_options(path: &Path, create: bool) -> IndexOptions {
+  IndexOptions {
+    path: path.to_path_buf(),
+    create_if_missing: create,
+    enable_positions: true,
+    bm25_k1: 0.9,
+    bm25_b: 0.4,
+    storage: StorageType::Filesystem,
+    vector_defaults: None,
+  }
+}
+
+/// The SearchRequest the FFI arguments denote (spec/Frontends.tla, FfiRequest). `None` when the
+/// aggregation bytes are not a JSON map of aggregations (the call must then fail).
+pub fn ffi_request(
+  query: &[u8],
+  limit: usize,
+  cursor: Option<&[u8]>,
+  aggs: Option<&[u8]>,
+  aggs_len: usize,
+) -> Option<SearchRequest> {
+  let qs = String::from_utf8_lossy(query).to_string();
+  let q: Query = match serde_json::from_str::<QueryNode>(&qs) {
+    Ok(n) => Query::Node(n),
+    Err(_) => Query::String(qs),
+  };
+  let aggs_map: BTreeMap<String, Aggregation> = match aggs {
+    Some(b) if aggs_len > 0 => {
+      let body = String::from_utf8_lossy(&b[..aggs_len.min(b.len())]).to_string();
+      match serde_json::from_str(&body) {
+        Ok(m) => m,
+        Err(_) => return None,
+      }
+    }
+    _ => BTreeMap::new(),
+  };
+  Some(SearchRequest {
+    query: q,
+    fields: None,
+    filter: None,
+    limit,
+    return_hits: true,
+    candidate_size: None,
+    sort: Vec::new(),
+    cursor: cursor.map(|c| String::from_utf8_lossy(c).to_string()),
+    execution: ExecutionStrategy::Wand,
+    bmw_block_size: None,
+    fuzzy: None,
+    vector_query: None,
+    vector_filter: None,
+    return_stored: true,
+    highlight_field: None,
+    highlight: None,
+    collapse: None,
+    aggs: aggs_map,
+    suggest: BTreeMap::new(),
+    rescore: None,
+    explain: false,
+    profile: false,
+  })
+}
+
+/// Outcome of the equivalent Rust API call: ("ok", json) | ("err", msg) | ("panic", msg).
+pub fn lib_outcome(idx: &Index, req: Option<SearchRequest>) -> (&'static str, String) {
+  let Some(req) = req else {
+    return ("err", "aggregation JSON does not parse".into());
+  };
+  // the library's panic is an observation here; keep its backtrace off the driver's stderr
+  let hook = std::panic::take_hook();
+  std::panic::set_hook(Box::new(|_| {}));
+  let r = catch_unwind(AssertUnwindSafe(|| -> Result<String> {
+    let reader = idx.reader()?;
+    let res = reader.search(&req)?;
+    Ok(serde_json::to_string(&res)?)
+  }));
+  std::panic::set_hook(hook);
+  match r {
+    Ok(Ok(s)) => ("ok", s),
+    Ok(Err(e)) => ("err", format!("{e:#}")),
+    Err(p) => {
+      let msg = p
+        .downcast_ref::<String>()
+        .cloned()
+        .or_else(|| p.downcast_ref::<&str>().map(|s| s.to_string()))
+        .unwrap_or_else(|| "panic".into());
+      ("panic", msg)
+    }
+  }
+}
+
+// ------------------------------------------------------------------------------------------------
+// Memory arenas
+// ------------------------------------------------------------------------------------------------
+
+fn page() -> usize {
+  unsafe { libc::sysconf(libc::_SC_PAGESIZE) as usize }
+}
+
+/// `guard | data pages | guard` mapping; the guards are PROT_NONE.
+struct Guarded {
+  base: *mut u8,
+  total: usize,
+  data: *mut u8,
+  data_len: usize,
+}
+
+impl Guarded {
+  fn new(min_data: usize) -> Self {
+    let p = page();
+    let data_len = ((min_data + p - 1) / p).max(1) * p;
+    let total = data_len + 2 * p;
+    unsafe {
+      let base = libc::mmap(
+        std::ptr::null_mut(),
+        total,
+        libc::PROT_READ | libc::PROT_WRITE,
+        libc::MAP_PRIVATE | libc::MAP_ANONYMOUS,
+        -1,
+        0,
+      );
+      assert!(base != libc::MAP_FAILED, "mmap failed");
+      let base = base as *mut u8;
+      assert_eq!(libc::mprotect(base as *mut _, p, libc::PROT_NONE), 0);
+      assert_eq!(libc::mprotect(base.add(p + data_len) as *mut _, p, libc::PROT_NONE), 0);
+      Self { base, total, data: base.add(p), data_len }
+    }
+  }
+  fn slice(&mut self) -> &mut [u8] {
+    unsafe { std::slice::from_raw_parts_mut(self.data, self.data_len) }
+  }
+}
+
+impl Drop for Guarded {
+  fn drop(&mut self) {
+    unsafe {
+      libc::munmap(self.base as *mut _, self.total);
+    }
+  }
+}
+
+/// A caller buffer of `cap` bytes inside an arena; everything else in the arena is canary.
+enum Arena {
+  Heap(Vec<u8>),
+  Map(Guarded),
+}
+
+struct Placed {
+  arena: Arena,
+  off: usize, // offset of buf[0] inside the arena's data
+  cap: usize,
+}
+
+impl Placed {
+  fn new(mode: &str, cap: usize) -> Self {
+    match mode {
+      "canary" => {
+        let mut v = vec![CANARY; CANARY_LEN + cap + CANARY_LEN];
+        v[CANARY_LEN..CANARY_LEN + cap].fill(FILL);
+        Placed { arena: Arena::Heap(v), off: CANARY_LEN, cap }
+      }
+      "guard_end" => {
+        let mut g = Guarded::new(cap + CANARY_LEN);
+        let dl = g.data_len;
+        let s = g.slice();
+        s.fill(CANARY);
+        s[dl - cap..].fill(FILL);
+        Placed { arena: Arena::Map(g), off: dl - cap, cap }
+      }
+      "guard_start" => {
+        let mut g = Guarded::new(cap + CANARY_LEN);
+        let s = g.slice();
+        s.fill(CANARY);
+        s[..cap].fill(FILL);
+        Placed { arena: Arena::Map(g), off: 0, cap }
+      }
+      other => panic!("unknown mode {other}"),
+    }
+  }
+  fn data(&mut self) -> &mut [u8] {
+    match &mut self.arena {
+      Arena::Heap(v) => v.as_mut_slice(),
+      Arena::Map(g) => g.slice(),
+    }
+  }
+  fn ptr(&mut self) -> *mut c_char {
+    let off = self.off;
+    unsafe { self.data().as_mut_ptr().add(off) as *mut c_char }
+  }
+  /// (nulAt, wrote, canariesIntact, prefixOk) measured after a call that returned `ret`.
+  fn measure(&mut self, ret: usize, full: &[u8]) -> (i64, bool, bool, bool) {
+    let (off, cap) = (self.off, self.cap);
+    let d = self.data();
+    let buf = &d[off..off + cap];
+    let nul_at = buf.iter().position(|b| *b == 0).map(|p| p as i64).unwrap_or(-1);
+    let wrote = buf.iter().any(|b| *b != FILL);
+    let canaries = d[..off].iter().all(|b| *b == CANARY) && d[off + cap..].iter().all(|b| *b == CANARY);
+    let prefix = ret <= cap && ret <= full.len() && buf[..ret] == full[..ret];
+    (nul_at, wrote, canaries, prefix)
+  }
+}
+
+/// Read-only bytes for an input argument. In guard modes the bytes end exactly at a PROT_NONE
+/// page and carry no terminator (only for arguments passed with an explicit length).
+struct InBytes {
+  _heap: Option<Vec<u8>>,
+  _map: Option<Guarded>,
+  ptr: *const c_char,
+}
+
+impl InBytes {
+  fn cstr(bytes: &[u8]) -> Self {
+    let mut v = bytes.to_vec();
+    v.push(0);
+    let ptr = v.as_ptr() as *const c_char;
+    InBytes { _heap: Some(v), _map: None, ptr }
+  }
+  fn counted(bytes: &[u8], guarded: bool) -> Self {
+    if !guarded || bytes.is_empty() {
+      return Self::cstr(bytes);
+    }
+    let mut g = Guarded::new(bytes.len());
+    let dl = g.data_len;
+    g.slice()[dl - bytes.len()..].copy_from_slice(bytes);
+    let ptr = unsafe { g.data.add(dl - bytes.len()) as *const c_char };
+    InBytes { _heap: None, _map: Some(g), ptr }
+  }
+}
+
+// ------------------------------------------------------------------------------------------------
+// Forked execution
+// ------------------------------------------------------------------------------------------------
+
+pub struct ChildResult {
+  pub lines: Vec<String>,
+  pub exited: bool,
+  pub code: i32,
+  pub signal: i32,
+  pub stderr_tail: String,
+}
+
+/// Runs `f` in a forked child; `f` reports lines through the given fd. The child's stderr goes to
+/// `errfile`. The calling process must be single-threaded.
+pub fn in_child<F: FnOnce(i32)>(errfile: &Path, f: F) -> Result<ChildResult> {
+  let mut fds = [0i32; 2];
+  if unsafe { libc::pipe(fds.as_mut_ptr()) } != 0 {
+    bail!("pipe failed");
+  }
+  let errc = CString::new(errfile.to_string_lossy().to_string())?;
+  let pid = unsafe { libc::fork() };
+  if pid < 0 {
+    bail!("fork failed");
+  }
+  if pid == 0 {
+    unsafe {
+      libc::close(fds[0]);
+      let efd = libc::open(errc.as_ptr(), libc::O_WRONLY | libc::O_CREAT | libc::O_TRUNC, 0o644);
+      if efd >= 0 {
+        libc::dup2(efd, 2);
+      }
+      libc::alarm(60);
+    }
+    // a panic of harness code in the child must not unwind into the parent's frames
+    let ok = catch_unwind(AssertUnwindSafe(|| f(fds[1]))).is_ok();
+    unsafe { libc::_exit(if ok { 0 } else { 3 }) };
+  }
+  unsafe { libc::close(fds[1]) };
+  let mut out = Vec::new();
+  let mut chunk = [0u8; 65536];
+  loop {
+    let n = unsafe { libc::read(fds[0], chunk.as_mut_ptr() as *mut _, chunk.len()) };
+    if n > 0 {
+      out.extend_from_slice(&chunk[..n as usize]);
+    } else if n == 0 {
+      break;
+    } else if std::io::Error::last_os_error().kind() != std::io::ErrorKind::Interrupted {
+      break;
+    }
+  }
+  unsafe { libc::close(fds[0]) };
+  let mut status = 0i32;
+  loop {
+    let r = unsafe { libc::waitpid(pid, &mut status, 0) };
+    if r == pid || (r < 0 && std::io::Error::last_os_error().kind() != std::io::ErrorKind::Interrupted) {
+      break;
+    }
+  }
+  let exited = libc::WIFEXITED(status);
+  let code = if exited { libc::WEXITSTATUS(status) } else { -1 };
+  let signal = if libc::WIFSIGNALED(status) { libc::WTERMSIG(status) } else { 0 };
+  let text = String::from_utf8_lossy(&out).to_string();
+  // a torn last line (child died while writing) is dropped
+  let complete = text.ends_with('\n');
+  let mut lines: Vec<String> = text.lines().map(|s| s.to_string()).collect();
+  if !complete && !lines.is_empty() {
+    lines.pop();
+  }
+  let stderr_tail = std::fs::read_to_string(errfile)
+    .unwrap_or_default()
+    .lines()
+    .find(|l| l.contains("panicked at") || l.contains("panic"))
+    .map(strip_thread_id)
+    .unwrap_or_default()
+    .chars()
+    .take(200)
+    .collect();
+  Ok(ChildResult { lines, exited, code, signal, stderr_tail })
+}
+
+/// `thread 'main' (12345) panicked at ..` -> `thread 'main' panicked at ..` (pids vary per run).
+fn strip_thread_id(l: &str) -> String {
+  match (l.find(" ("), l.find(") panicked")) {
+    (Some(a), Some(b)) if a < b && l[a + 2..b].chars().all(|c| c.is_ascii_digit()) => {
+      format!("{}{}", &l[..a], &l[b + 1..])
+    }
+    _ => l.to_string(),
+  }
+}
+
+fn report(fd: i32, line: &str) {
+  let mut s = line.to_string();
+  s.push('\n');
+  let b = s.as_bytes();
+  let mut off = 0;
+  while off < b.len() {
+    let n = unsafe { libc::write(fd, b[off..].as_ptr() as *const _, b.len() - off) };
+    if n <= 0 {
+      break;
+    }
+    off += n as usize;
+  }
+}
+
+// ------------------------------------------------------------------------------------------------
+// One call
+// ------------------------------------------------------------------------------------------------
+
+#[derive(Clone, Copy, Default)]
+struct Nulls {
+  handle: bool,
+  query: bool,
+  buffer: bool,
+}
+
+/// Performs the call with a placed buffer of `cap` bytes and returns the measured observation as
+/// "ret nulAt wrote canaries prefix".
+fn one_call(h: *mut IndexHandle, a: &CallArgs, mode: &str, cap: usize, full: &[u8], nulls: Nulls) -> String {
+  let guarded = mode != "canary";
+  let q = InBytes::cstr(&a.query);
+  let c = a.cursor.as_ref().map(|c| InBytes::cstr(c));
+  let ag = a.aggs.as_ref().map(|b| InBytes::counted(&b[..a.aggs_len.min(b.len())], guarded));
+  let mut placed = Placed::new(mode, cap);
+  let ret = unsafe {
+    searchlite_search(
+      if nulls.handle { std::ptr::null_mut() } else { h },
+      if nulls.query { std::ptr::null() } else { q.ptr },
+      a.limit,
+      c.as_ref().map(|x| x.ptr).unwrap_or(std::ptr::null()),
+      ag.as_ref().map(|x| x.ptr).unwrap_or(std::ptr::null()),
+      a.aggs_len,
+      if nulls.buffer { std::ptr::null_mut() } else { placed.ptr() },
+      cap,
+    )
+  };
+  let (nul_at, wrote, canaries, prefix) = placed.measure(ret.min(usize::MAX / 2), full);
+  format!("{} {} {} {} {}", ret.min(2_000_000_000), nul_at, wrote as u8, canaries as u8, prefix as u8)
+}
+
+fn parse_obs(line: &str) -> Option<(usize, u64, i64, bool, bool, bool)> {
+  let p: Vec<&str> = line.split(' ').collect();
+  if p.len() != 6 {
+    return None;
+  }
+  Some((
+    p[0].parse().ok()?,
+    p[1].parse().ok()?,
+    p[2].parse().ok()?,
+    p[3] == "1",
+    p[4] == "1",
+    p[5] == "1",
+  ))
+}
+
+// ------------------------------------------------------------------------------------------------
+// Index and input generation
+// ------------------------------------------------------------------------------------------------
+
+fn ffi_schema() -> Value {
+  json!({
+    "doc_id_field": "_id",
+    "text_fields": [
+      {"name": "body", "analyzer": "default", "stored": true, "indexed": true, "nullable": false}
+    ],
+    "keyword_fields": [
+      {"name": "tag", "stored": true, "indexed": true, "fast": true, "nullable": true}
+    ],
+    "numeric_fields": [
+      {"name": "num", "i64": true, "fast": true, "stored": true, "nullable": true}
+    ],
+    "nested_fields": []
+  })
+}
+
+const QUERY_STRINGS: [&str; 18] = [
+  "common", "w1", "w1 common", "x3", "nomatch", "", "   ", "body:w2", "tag:t1", "\"w1 common\"",
+  "w1 OR", "((", "*", "a:b:c", "+w1 -w2", "w1 AND common", "caf\u{e9} \u{1F600}", "W1 Common",
+];
+
+fn gen_query(r: &mut StdRng, rich: bool) -> Vec<u8> {
+  match r.gen_range(0..10) {
+    0..=4 => pick(r, &QUERY_STRINGS).as_bytes().to_vec(),
+    5 => {
+      // node JSON
+      let nodes = [
+        json!({"type": "match_all"}),
+        json!({"type": "term", "field": "body", "value": format!("w{}", r.gen_range(0..4))}),
+        json!({"type": "prefix", "field": "body", "value": "w"}),
+        json!({"type": "bool", "must": [{"type": "term", "field": "body", "value": "common"}],
+               "must_not": [{"type": "term", "field": "body", "value": "w2"}]}),
+        json!({"type": "phrase", "field": "body", "terms": ["w1", "common"]}),
+        json!({"type": "term", "field": "nosuchfield", "value": "x"}),
+        json!({"type": "nosuchtype"}),
+      ];
+      let mut n = pick(r, &nodes).clone();
+      if rich && chance(r, 1, 3) {
+        n = json!({"type": "bool", "must": [n],
+                   "filter": [{"KeywordEq": {"field": "tag", "value": "t1"}}]});
+      }
+      n.to_string().into_bytes()
+    }
+    6 => vec![b'a'; r.gen_range(1..6000)],
+    7 => {
+      // arbitrary non-NUL bytes (invalid UTF-8 is decoded lossily by the callee)
+      (0..r.gen_range(1..24)).map(|_| r.gen_range(1..=255u8)).collect()
+    }
+    8 => {
+      let mut v = b"w1 \xff\xfe common".to_vec();
+      v.extend_from_slice(pick(r, &QUERY_STRINGS).as_bytes());
+      v
+    }
+    _ => format!("w{} x{}", r.gen_range(0..4), r.gen_range(0..14)).into_bytes(),
+  }
+}
+
+fn gen_aggs(r: &mut StdRng, rich: bool) -> (Option<Vec<u8>>, usize, &'static str) {
+  if !rich {
+    // default schema has no fast fields: only unparsable / empty / field-less aggregations
+    return match r.gen_range(0..6) {
+      0 => (Some(b"not valid json".to_vec()), 14, "invalid_json"),
+      1 => (Some(b"{}".to_vec()), 2, "empty_map"),
+      2 => (Some(b"{}".to_vec()), 0, "len0"),
+      _ => (None, 0, "null"),
+    };
+  }
+  let valid = [
+    json!({"tags": {"type": "terms", "field": "tag", "size": 5}}),
+    json!({"st": {"type": "stats", "field": "num"}}),
+    json!({"tags": {"type": "terms", "field": "tag"}, "n": {"type": "value_count", "field": "num"}}),
+    json!({"h": {"type": "histogram", "field": "num", "interval": 4.0}}),
+    json!({"c": {"type": "cardinality", "field": "tag"}}),
+  ];
+  match r.gen_range(0..16) {
+    0..=3 | 12..=15 => {
+      let b = pick(r, &valid).to_string().into_bytes();
+      let l = b.len();
+      (Some(b), l, "valid")
+    }
+    4 => (Some(b"not valid json".to_vec()), 14, "invalid_json"),
+    5 => {
+      let b = json!({"x": {"type": "nosuchagg"}}).to_string().into_bytes();
+      let l = b.len();
+      (Some(b), l, "invalid_shape")
+    }
+    6 => {
+      let b = json!({"x": {"type": "terms", "field": "body"}}).to_string().into_bytes();
+      let l = b.len();
+      (Some(b), l, "not_fast_field")
+    }
+    7 => {
+      // aggs_len shorter than the text: the callee must only look at the prefix
+      let b = pick(r, &valid).to_string().into_bytes();
+      let l = r.gen_range(1..b.len());
+      (Some(b), l, "truncated_len")
+    }
+    8 => {
+      let b = pick(r, &valid).to_string().into_bytes();
+      (Some(b), 0, "len0")
+    }
+    9 => (None, r.gen_range(1..64), "null_with_len"),
+    _ => (None, 0, "null"),
+  }
+}
+
+// ------------------------------------------------------------------------------------------------
+// Driver
+// ------------------------------------------------------------------------------------------------
+
+struct Ctx<'a> {
+  h: *mut IndexHandle,
+  lib: &'a Index,
+  tr: &'a mut Tracer,
+  errfile: std::path::PathBuf,
+  case_no: usize,
+  calls: usize,
+  crashes: usize,
+  forks: usize,
+}
+
+/// Full response through a large buffer, in a child (the callee may abort).
+fn full_response(cx: &mut Ctx, a: &CallArgs) -> Result<(Vec<u8>, bool, i32, String)> {
+  let h = cx.h as usize;
+  let a2 = a.clone();
+  cx.forks += 1;
+  let res = in_child(&cx.errfile, move |fd| {
+    let mut cap = BIG;
+    loop {
+      let mut buf = vec![FILL; cap];
+      let q = InBytes::cstr(&a2.query);
+      let c = a2.cursor.as_ref().map(|c| InBytes::cstr(c));
+      let ag = a2.aggs.as_ref().map(|b| InBytes::cstr(&b[..a2.aggs_len.min(b.len())]));
+      let ret = unsafe {
+        searchlite_search(
+          h as *mut IndexHandle,
+          q.ptr,
+          a2.limit,
+          c.as_ref().map(|x| x.ptr).unwrap_or(std::ptr::null()),
+          ag.as_ref().map(|x| x.ptr).unwrap_or(std::ptr::null()),
+          a2.aggs_len,
+          buf.as_mut_ptr() as *mut c_char,
+          cap,
+        )
+      };
+      if ret + 1 >= cap && cap < (1 << 28) {
+        cap *= 8;
+        continue;
+      }
+      let hex: String = buf[..ret.min(cap)].iter().map(|b| format!("{b:02x}")).collect();
+      report(fd, &format!("full {hex}"));
+      break;
+    }
+  })?;
+  if let Some(l) = res.lines.iter().find(|l| l.starts_with("full ")) {
+    let hex = &l[5..];
+    let bytes: Vec<u8> = (0..hex.len() / 2)
+      .map(|i| u8::from_str_radix(&hex[2 * i..2 * i + 2], 16).unwrap())
+      .collect();
+    return Ok((bytes, false, 0, String::new()));
+  }
+  Ok((Vec::new(), true, res.signal, res.stderr_tail))
+}
+
+fn escape(b: &[u8], max: usize) -> String {
+  let s: String = String::from_utf8_lossy(b).chars().flat_map(|c| c.escape_default()).collect();
+  s.chars().take(max).collect()
+}
+
+fn run_case(cx: &mut Ctx, a: &CallArgs, modes: &[&str], margin: usize, max_caps: usize, r: &mut StdRng) -> Result<()> {
+  cx.case_no += 1;
+  let case = cx.case_no;
+  let req = ffi_request(&a.query, a.limit, a.cursor.as_deref(), a.aggs.as_deref(), a.aggs_len);
+  let (lib_class, lib_text) = lib_outcome(cx.lib, req);
+  let (full, big_crashed, big_signal, big_note) = full_response(cx, a)?;
+  let must_fail = lib_class != "ok";
+  let full_eq_lib = lib_class == "ok" && full == lib_text.as_bytes();
+  cx.tr.emit(json!({
+    "ev": "case", "case": case, "query": escape(&a.query, 120), "query_len": a.query.len(),
+    "limit": a.limit.min(2_000_000_000), "cursor": a.cursor_kind, "aggs": a.aggs_kind,
+    "aggs_len": a.aggs_len, "lib": lib_class,
+    "lib_note": if lib_class == "ok" { String::new() } else { lib_text.chars().take(160).collect() },
+    "lib_len": if lib_class == "ok" { lib_text.len() } else { 0 },
+    "fullLen": full.len(), "full_eq_lib": full_eq_lib || lib_class != "ok",
+    "big_crashed": big_crashed, "big_signal": big_signal, "big_note": big_note,
+    "mustFail": must_fail,
+  }));
+  // capacities: every value 0..=len+margin (sub-sampled above max_caps, always keeping the
+  // neighbourhood of 0 and of len)
+  let top = full.len() + margin;
+  let mut caps: Vec<usize> = (0..=top).collect();
+  if caps.len() > max_caps {
+    let keep_lo = 40;
+    let keep_hi = full.len().saturating_sub(24);
+    let mut mid: Vec<usize> = (keep_lo..keep_hi).collect();
+    let want = max_caps.saturating_sub(keep_lo + (top + 1 - keep_hi));
+    while mid.len() > want {
+      let i = r.gen_range(0..mid.len());
+      mid.swap_remove(i);
+    }
+    mid.sort();
+    caps = (0..keep_lo).chain(mid).chain(keep_hi..=top).collect();
+  }
+  for mode in modes {
+    let mut next = 0usize;
+    while next < caps.len() {
+      let h = cx.h as usize;
+      let a2 = a.clone();
+      let todo: Vec<usize> = caps[next..].to_vec();
+      let full2 = full.clone();
+      let mode2 = mode.to_string();
+      cx.forks += 1;
+      let res = in_child(&cx.errfile, move |fd| {
+        for cap in todo {
+          let line = one_call(h as *mut IndexHandle, &a2, &mode2, cap, &full2, Nulls::default());
+          report(fd, &format!("{cap} {line}"));
+        }
+      })?;
+      let mut done = 0usize;
+      for line in &res.lines {
+        let Some((cap, ret, nul_at, wrote, canaries, prefix)) = parse_obs(line) else {
+          bail!("unparsable child line {line:?}");
+        };
+        if cap != caps[next + done] {
+          bail!("child reported cap {cap}, expected {}", caps[next + done]);
+        }
+        cx.tr.emit(json!({
+          "ev": "call", "case": case, "mode": mode, "cap": cap, "fullLen": full.len(),
+          "bufNull": false, "nullArg": false, "mustFail": must_fail, "lib": lib_class,
+          "crashed": false, "signal": 0, "ret": ret, "nulAt": nul_at, "wrote": wrote,
+          "canariesIntact": canaries, "prefixOk": prefix, "note": "",
+        }));
+        done += 1;
+        cx.calls += 1;
+      }
+      next += done;
+      if next < caps.len() && !(res.exited && res.code == 0) {
+        // the child died inside the call for caps[next]
+        cx.tr.emit(json!({
+          "ev": "call", "case": case, "mode": mode, "cap": caps[next], "fullLen": full.len(),
+          "bufNull": false, "nullArg": false, "mustFail": must_fail, "lib": lib_class,
+          "crashed": true, "signal": res.signal, "ret": 0, "nulAt": -1, "wrote": false,
+          "canariesIntact": true, "prefixOk": false, "note": res.stderr_tail,
+        }));
+        cx.calls += 1;
+        cx.crashes += 1;
+        next += 1;
+        if lib_class == "panic" || cx.crashes > 2000 {
+          // a callee that aborts for this input aborts for every capacity: one witness per
+          // mode is enough
+          break;
+        }
+      } else if next < caps.len() {
+        bail!("child exited cleanly but reported only {done} of {} calls", caps.len() - (next - done));
+      }
+    }
+  }
+  Ok(())
+}
+
+/// Null pointer in each argument position (and the auxiliary entry points' null handling).
+fn run_nulls(cx: &mut Ctx, a: &CallArgs) -> Result<()> {
+  let (full, _, _, _) = full_response(cx, a)?;
+  let combos: [(&str, Nulls, usize); 7] = [
+    ("handle", Nulls { handle: true, ..Default::default() }, 256),
+    ("query", Nulls { query: true, ..Default::default() }, 256),
+    ("buffer", Nulls { buffer: true, ..Default::default() }, 256),
+    ("buffer_cap0", Nulls { buffer: true, ..Default::default() }, 0),
+    ("handle_query", Nulls { handle: true, query: true, buffer: false }, 64),
+    ("all", Nulls { handle: true, query: true, buffer: true }, 64),
+    ("none", Nulls::default(), 0),
+  ];
+  for (name, nulls, cap) in combos {
+    cx.case_no += 1;
+    let case = cx.case_no;
+    let h = cx.h as usize;
+    let a2 = a.clone();
+    let full2 = full.clone();
+    cx.forks += 1;
+    let res = in_child(&cx.errfile, move |fd| {
+      let line = one_call(h as *mut IndexHandle, &a2, "canary", cap, &full2, nulls);
+      report(fd, &format!("{cap} {line}"));
+    })?;
+    let obs = res.lines.first().and_then(|l| parse_obs(l));
+    let crashed = obs.is_none();
+    let (_, ret, nul_at, wrote, canaries, prefix) = obs.unwrap_or((cap, 0, -1, false, true, false));
+    cx.tr.emit(json!({
+      "ev": "call", "case": case, "mode": format!("null:{name}"), "cap": cap, "fullLen": full.len(),
+      "bufNull": nulls.buffer, "nullArg": nulls.handle || nulls.query, "mustFail": nulls.handle || nulls.query,
+      "lib": "na", "crashed": crashed, "signal": res.signal, "ret": ret, "nulAt": nul_at,
+      "wrote": wrote, "canariesIntact": canaries, "prefixOk": prefix, "note": res.stderr_tail,
+    }));
+    cx.calls += 1;
+    if crashed {
+      cx.crashes += 1;
+    }
+  }
+  // the other entry points: a null argument must yield a negative / null status
+  let h = cx.h as usize;
+  let aux: [&str; 5] = ["open_null_path", "add_null_handle", "add_null_json", "commit_null_handle", "close_null"];
+  for name in aux {
+    cx.forks += 1;
+    let res = in_child(&cx.errfile, move |fd| {
+      let doc = CString::new(r#"{"_id":"zz","body":"zz"}"#).unwrap();
+      let status: i64 = unsafe {
+        match name {
+          "open_null_path" => {
+            if searchlite_index_open(std::ptr::null(), true).is_null() { -1 } else { 1 }
+          }
+          "add_null_handle" => searchlite_add_json(std::ptr::null_mut(), doc.as_ptr(), 24) as i64,
+          "add_null_json" => searchlite_add_json(h as *mut IndexHandle, std::ptr::null(), 0) as i64,
+          "commit_null_handle" => searchlite_commit(std::ptr::null_mut()) as i64,
+          _ => {
+            searchlite_index_close(std::ptr::null_mut());
+            0
+          }
+        }
+      };
+      report(fd, &format!("{status}"));
+    })?;
+    let status: Option<i64> = res.lines.first().and_then(|l| l.parse().ok());
+    cx.tr.emit(json!({
+      "ev": "aux", "fn": name, "crashed": status.is_none(), "signal": res.signal,
+      "status": status.unwrap_or(0), "note": res.stderr_tail,
+    }));
+    if status.is_none() {
+      cx.crashes += 1;
+    }
+  }
+  Ok(())
+}
+
+pub fn main(args: &Args) -> Result<()> {
+  let seed = args.u64("seed", 1);
+  let out = args.str("out", "out/ffi.ndjson");
+  let n_cases = args.usize("cases", 24);
+  let margin = args.usize("margin", 16);
+  let max_caps = args.usize("max-caps", 700);
+  let modes_s = args.str("modes", "canary,guard_end");
+  let modes: Vec<&str> = modes_s.split(',').filter(|s| !s.is_empty()).collect();
+  let mut tr = Tracer::create(Path::new(&out))?;
+  let scratch = Scratch::new("ffi");
+  let mut total_calls = 0usize;
+  let mut total_crashes = 0usize;
+  let mut total_forks = 0usize;
+  let mut total_cases = 0usize;
+
+  // scenario 0: index created by the C API itself (default schema); scenario 1: index created
+  // through the library with keyword/numeric fast fields so that aggregations are meaningful.
+  for scn in 0..2usize {
+    let mut r = rng(seed, 26_000 + scn as u64);
+    let root = scratch.join(&format!("idx{scn}"));
+    let rich = scn == 1;
+    if rich {
+      let schema = schema_from_json(ffi_schema());
+      drop(IndexBuilder::create(&root, schema, frontend_options(&root, true))?);
+    }
+    let cpath = CString::new(root.to_string_lossy().to_string())?;
+    let h = unsafe { searchlite_index_open(cpath.as_ptr(), !rich) };
+    if h.is_null() {
+      bail!("searchlite_index_open returned NULL for {root:?}");
+    }
+    let n_docs = r.gen_range(8..=14);
+    for i in 0..n_docs {
+      let doc = if rich {
+        json!({"_id": format!("d{i}"), "body": format!("w{} common x{i}", i % 4),
+               "tag": format!("t{}", i % 3), "num": i})
+      } else {
+        json!({"_id": format!("d{i}"), "body": format!("w{} common x{i}", i % 4)})
+      };
+      let c = CString::new(doc.to_string())?;
+      let st = unsafe { searchlite_add_json(h, c.as_ptr(), c.as_bytes().len()) };
+      if st < 0 {
+        bail!("searchlite_add_json returned {st}");
+      }
+    }
+    if unsafe { searchlite_commit(h) } != 0 {
+      bail!("searchlite_commit failed");
+    }
+    let lib = Index::open(frontend_options(&root, false))?;
+    tr.emit(json!({"ev": "reset", "scn": scn, "docs": n_docs, "rich": rich,
+                   "modes": modes, "margin": margin}));
+    let mut cx = Ctx {
+      h,
+      lib: &lib,
+      tr: &mut tr,
+      errfile: scratch.join("child.stderr"),
+      case_no: scn * 100_000,
+      calls: 0,
+      crashes: 0,
+      forks: 0,
+    };
+    // a valid cursor for the cursor cases
+    let first = lib_outcome(
+      &lib,
+      ffi_request(b"common", 2, None, None, 0),
+    );
+    let valid_cursor: Option<String> = serde_json::from_str::<Value>(&first.1)
+      .ok()
+      .and_then(|v| v["next_cursor"].as_str().map(|s| s.to_string()));
+    let per = if rich { n_cases - n_cases / 3 } else { n_cases / 3 };
+    for _ in 0..per {
+      let query = gen_query(&mut r, rich);
+      let limit = match r.gen_range(0..16) {
+        0 => 0,
+        1 => 1000,
+        2 => usize::MAX,
+        _ => r.gen_range(1..=4),
+      };
+      let (cursor, cursor_kind): (Option<Vec<u8>>, &'static str) = match r.gen_range(0..16) {
+        0 => (valid_cursor.clone().map(|s| s.into_bytes()), "valid_for_other_query"),
+        1 => (Some(b"zz".to_vec()), "garbage"),
+        2 => (Some(Vec::new()), "empty"),
+        3 => {
+          // S16a witness shape: odd multi-byte chunks
+          let mut v = b"a".to_vec();
+          for _ in 0..20 {
+            v.extend_from_slice("\u{e9}".as_bytes());
+          }
+          v.push(b'a');
+          (Some(v), "multibyte")
+        }
+        4 => (Some((0..r.gen_range(1..40)).map(|_| *pick(&mut r, b"0123456789abcdef")).collect()), "hex"),
+        _ => (None, "null"),
+      };
+      let (aggs, aggs_len, aggs_kind) = gen_aggs(&mut r, rich);
+      let mut a = CallArgs { query, limit, cursor, aggs, aggs_len, cursor_kind, aggs_kind };
+      if cursor_kind == "valid_for_other_query" && chance(&mut r, 2, 3) {
+        a.query = b"common".to_vec();
+        a.limit = 2;
+        a.cursor_kind = "valid";
+      }
+      run_case(&mut cx, &a, &modes, margin, max_caps, &mut r)?;
+      total_cases += 1;
+    }
+    let plain = CallArgs {
+      query: b"common".to_vec(),
+      limit: 3,
+      cursor: None,
+      aggs: None,
+      aggs_len: 0,
+      cursor_kind: "null",
+      aggs_kind: "null",
+    };
+    run_nulls(&mut cx, &plain)?;
+    total_calls += cx.calls;
+    total_crashes += cx.crashes;
+    total_forks += cx.forks;
+    unsafe { searchlite_index_close(h) };
+  }
+  let lines = tr.finish();
+  println!(
+    "{}",
+    json!({"cases": total_cases, "calls": total_calls, "crashes": total_crashes,
+           "forks": total_forks, "events": lines, "out": out})
+  );
+  Ok(())
 }
